@@ -49,6 +49,11 @@ MALFORMED = {
     'entry-without-seq': ts.tlv(0xc9, ts.tlv(0xca, ID_WIRE['p'])),
     'entry-without-id': ts.tlv(0xc9, ts.tlv(0xca, ts.tlv(0xcc, b'\x02'))),
     'empty-vector': ts.tlv(0xc9, b''),
+    # malformed *entries*: an unknown critical element, a second node id, the sequence number before the node id
+    'entry-unknown-critical': ts.tlv(0xc9, ts.tlv(0xca, ID_WIRE['p'] + ts.tlv(0xcb, b'\x01') + ts.tlv(0xcc, b'\x02'))),
+    'entry-two-ids': ts.tlv(0xc9, ts.tlv(0xca, ID_WIRE['p'] + ID_WIRE['q'] + ts.tlv(0xcc, b'\x02'))),
+    'entry-seq-before-id': ts.tlv(0xc9, ts.tlv(0xca, ts.tlv(0xcc, b'\x02') + ID_WIRE['p']) + ts.tlv(0xca, ID_WIRE['q'] + ts.tlv(0xcc, b'\x01'))),
+    'good-entry-then-bad-entry': ts.tlv(0xc9, ts.tlv(0xca, ID_WIRE['q'] + ts.tlv(0xcc, b'\x01')) + ts.tlv(0xca, ID_WIRE['p'] + ts.tlv(0xcb, b'') + ts.tlv(0xcc, b'\x02'))),
     # the own node listed twice, one of the claims exceeding what it has produced: "claims more than produced" -> ignored entirely
     'own-node-twice-excess-first': ts.tlv(0xc9, ts.tlv(0xca, ID_WIRE['s'] + ts.tlv(0xcc, ts.uint(99))) + ts.tlv(0xca, ID_WIRE['p'] + ts.tlv(0xcc, ts.uint(2)))
                                           + ts.tlv(0xca, ID_WIRE['s'] + ts.tlv(0xcc, ts.uint(0)))),
@@ -81,6 +86,10 @@ def op_list(maxseq):
         if 's' in v and len(v) > 1:
             # same vector with the own-node entry last on the wire
             ops.append(('recv', tuple(sorted(v.items())), 'pqs'))
+        if len(v) == 3:
+            # the own-node entry between the two others (an entry the receiver is ahead in, between two it may be behind in)
+            ops.append(('recv', tuple(sorted(v.items())), 'psq'))
+            ops.append(('recv', tuple(sorted(v.items())), 'qsp'))
     for m in MALFORMED:
         ops.append(('bad', m))
     ops.append(('short-name',))
